@@ -125,6 +125,9 @@ PROCESS = "iOpt/method/process.py"
 SDATA = "iOpt/method/search_data.py"
 EVOL = "iOpt/evolvent/evolvent.py"
 
+# Two entries were retired when repo fix 12 made them equivalent (no observable effect on the current tree): returning the
+# evolvent's work vector from GetImage without a copy, and the revert of fix 10 - since fix 12 every GetImage starts from a
+# fresh work vector, so neither can influence a later query any more.
 MUTANTS = {
     "recalc_dropped_in_CalculateM": M(METHOD, "                self.M[index] = m\n                self.recalc = True", "                self.M[index] = m", ["C02"]),
     "recalc_dropped_in_UpdateOptimum": M(METHOD, "            self.best = point\n            self.recalc = True\n            self.Z[point.GetIndex()] = point.GetZ()\n        # a locally", "            self.best = point\n            self.Z[point.GetIndex()] = point.GetZ()\n        # a locally", ["C02"]),
@@ -149,9 +152,7 @@ MUTANTS = {
     "getresults_refreshes_the_queue": M(PROCESS, "        return self.searchData.solution\n", "        if self.searchData.GetCount() > 3:\n            self.searchData.RefillQueue()\n        return self.searchData.solution\n", ["C02", "C11"], note="a read that steers: harmless between iterations, but between taking an interval from the queue and inserting the new trial (GetResults called from inside the objective) it re-queues the interval being split"),
     "class_level_queue": M(SDATA, "        self._RGlobalQueue = CharacteristicsQueue(maxlen)\n        self.__firstDataItem", "        self._RGlobalQueue = SearchData._SHARED_Q\n        self.__firstDataItem", ["C12"]),
     "first_iteration_rerun_by_solve": M(PROCESS, "        startTime = datetime.now()\n", "        if self.__first_iteration is False:\n            self.method.FirstIteration()\n        startTime = datetime.now()\n", ["C11"], note="the commented-out block in Solve, re-enabled"),
-    "getimage_no_copy": M(EVOL, "        self.__TransformP2D()\n        return np.copy(self.yValues)", "        self.__TransformP2D()\n        return self.yValues", ["C17"]),
     "image_1d_reuses_the_work_vector": M(EVOL, "            self.yValues = np.zeros(1, dtype=np.double)\n            self.yValues[0] = _x - 0.5", "            self.yValues[0] = _x - 0.5", ["C17"], note="revert of fix 12"),
-    "inverse_int_dtype_again": M(EVOL, "        self.yValues = np.array(y, dtype=np.double)\n", "        self.yValues = np.copy(y)\n", ["C17"], note="revert of fix 10", count=2),
     "inverse_no_copy_in": M(EVOL, "        self.yValues = np.array(y, dtype=np.double)\n        self.__TransformD2P()\n        x = self.__GetXonY()\n        return x\n\n    # ----------------------", "        self.yValues = np.asarray(y, dtype=np.double)\n        self.__TransformD2P()\n        x = self.__GetXonY()\n        return x\n\n    # ----------------------", ["C17"]),
     "setbounds_alias": M(EVOL, "        self.lowerBoundOfFloatVariables = np.copy(lowerBoundOfFloatVariables)\n        self.upperBoundOfFloatVariables = np.copy(upperBoundOfFloatVariables)\n\n    def GetImage", "        self.lowerBoundOfFloatVariables = lowerBoundOfFloatVariables\n        self.upperBoundOfFloatVariables = upperBoundOfFloatVariables\n\n    def GetImage", ["C17"]),
     "on_end_iteration_per_iteration": M(PROCESS, "                self.method.FinalizeIteration()\n\n        for listener in self.__listeners:\n            listener.OnEndIteration(savedNewPoints, self.GetResults())", "                self.method.FinalizeIteration()\n\n            for listener in self.__listeners:\n                listener.OnEndIteration(savedNewPoints, self.GetResults())", ["C13"]),
